@@ -44,7 +44,12 @@ impl Builder {
 
     /// Write spectrum to stdout.
     pub fn write_to_stdout<S: State>(self, spectrum: &Spectrum<S>) -> io::Result<()> {
-        self.write(&mut io::stdout().lock(), spectrum)
+        let mut stdout = io::stdout().lock();
+        self.write(&mut stdout, spectrum)?;
+
+        // Stdout is line-buffered, and binary output rarely ends in a newline: whatever is still
+        // buffered would only be written at exit, where a failure goes unnoticed
+        io::Write::flush(&mut stdout)
     }
 
     /// Write spectrum to path.
